@@ -2,12 +2,18 @@
 from __future__ import annotations
 from typing import Optional, Sequence, Tuple, Union
 
+import numpy
 import numpy.typing
 
 import numpoly
 
 from . import clean
 from ..baseclass import ndpoly
+
+CFUNCTION_DTYPES = tuple(
+    numpy.dtype(dtype)
+    for dtype in (bool, numpy.uint32, numpy.int64, numpy.float64, numpy.complex128)
+)
 
 
 def polynomial_from_attributes(
@@ -92,9 +98,18 @@ def polynomial_from_attributes(
     )
 
     if coefficients:
-        numpoly.cfrom_attributes(coefficients, poly.values.ravel())
-
-    # for key, values in zip(poly.keys, coefficients):
-    #    poly.values[key] = values
+        # The C helper writes raw bytes and only knows a handful of source
+        # dtypes: cast to the target dtype first (which also makes the source
+        # writable and contiguous) and fall back to plain numpy assignment
+        # for the dtypes the helper does not handle.
+        dtype_ = numpy.dtype(dtype)
+        coefficients = [
+            numpy.array(coefficient, dtype=dtype_) for coefficient in coefficients
+        ]
+        if dtype_ in CFUNCTION_DTYPES:
+            numpoly.cfrom_attributes(coefficients, poly.values.ravel())
+        else:
+            for key, values in zip(poly.keys, coefficients):
+                poly.values[key] = values
 
     return poly
